@@ -2,6 +2,7 @@ import TantivyModel.Driver.Proto
 import TantivyModel.Model.Grammar.Chars
 import TantivyModel.Model.Grammar.CharsLenient
 import TantivyModel.Model.Grammar.Agree
+import TantivyModel.Model.Grammar.Printer
 /-!
 Line protocol of the C16 character layer.
 
@@ -77,6 +78,174 @@ def handleParseBoth (h : String) : String :=
   match textOfHex h with
   | some s => showOutcome (parseStrict s) ++ "|" ++ showLOutcome (parseLenient s) ++ "|" ++ showBool (featureFree s)
   | none => "bad-op"
+
+def parseOccTok : String → Option (Option Occur)
+  | "-" => some none | "s" => some (some .should) | "m" => some (some .must)
+  | "x" => some (some .mustNot) | _ => none
+
+def parseOpTok : String → Option (Option BinOp)
+  | "-" => some none | "o" => some (some .or) | "a" => some (some .and) | _ => none
+
+def parsePItem (s : String) : Option PItem :=
+  match s.splitOn "," with
+  | [op, occ, w, a, b] =>
+    match parseOpTok op, parseOccTok occ, textOfHex w, a.toNat?, b.toNat? with
+    | some op, some occ, some w, some a, some b => some ⟨op, occ, wordOpd w, a, b⟩
+    | _, _, _, _, _ => none
+  | _ => none
+
+/-- `printl <lead> <occ> <word hex> <trailing> <items|->` → hex of `printList …` (the printer of
+    `C16_print_parse_operands`); items are `;` separated `op,occ,word hex,sp1,sp2` -/
+def handlePrintList (lead occ w k items : String) : String :=
+  match lead.toNat?, parseOccTok occ, textOfHex w, k.toNat? with
+  | some lead, some occ, some w, some k =>
+    let its : Option (List PItem) := if items == "-" then some [] else (items.splitOn ";").mapM parsePItem
+    match its with
+    | some its => hexStr (printList lead occ (wordOpd w) its k [])
+    | none => "bad-op"
+  | _, _, _, _ => "bad-op"
+
+/-- suffix token: `-` | `*` | `s<digits>` -/
+def parseSfxTok (t : String) : Option Sfx :=
+  match t.toList with
+  | ['-'] => some .none
+  | ['*'] => some .pfx
+  | 's' :: ds => some (.slop ds)
+  | _ => none
+
+/-- `n` further set elements `<k>,<hex>` -/
+def parseElemToks : Nat → List String → Option (List (Nat × Str) × List String)
+  | 0, toks => some ([], toks)
+  | n + 1, k :: h :: rest =>
+    match k.toNat?, textOfHex h, parseElemToks n rest with
+    | some k, some w, some (more, rest') => some ((k, w) :: more, rest')
+    | _, _, _ => none
+  | _ + 1, _ => none
+
+mutual
+/-- operand tokens: `w,<hex>` | `p,<hex>` | `fw,<hex>,<hex>` | `fp,<hex>,<hex>` | `ps,<hex>,<sfx>` | `fps,<hex>,<hex>,<sfx>` (sfx `-`|`*`|`s<digits>`) | `r,<lo>,<hi>,<hex>,<hex>` | `fr,<hex>,<lo>,<hi>,<hex>,<hex>` | `s,<k0>,<k1>,<hex>,<n>, n×(<k>,<hex>)` | `fs,<hex>,<k0>,<k1>,<hex>,<n>,…` | `pe,<hex>,<sfx>` | `fpe,<hex>,<hex>,<sfx>` | `a` | `x,<hex>` | `el,<k>,<hex>` | `fel,<hex>,<k>,<hex>` | `b,<int digits>,<fraction digits or ->,Opd` | `n,<k>,Opd` | `fg,<hex>,` + the fields of `g` | `g,<lead>,<occ>,<k>,<n>,Opd, n × (<op>,<occ>,<sp1>,<sp2>,Opd)` -/
+def parseOpdToks : Nat → List String → Option (Opd × List String)
+  | 0, _ => none
+  | fuel + 1, toks =>
+    match toks with
+    | "w" :: h :: rest => (textOfHex h).map fun w => (wordOpd w, rest)
+    | "p" :: h :: rest => (textOfHex h).map fun w => (phraseOpd w, rest)
+    | "fw" :: hf :: h :: rest =>
+      match textOfHex hf, textOfHex h with
+      | some f, some w => some (fieldWordOpd f w, rest)
+      | _, _ => none
+    | "fp" :: hf :: h :: rest =>
+      match textOfHex hf, textOfHex h with
+      | some f, some w => some (fieldPhraseOpd f w, rest)
+      | _, _ => none
+    | "ps" :: h :: x :: rest =>
+      match textOfHex h, parseSfxTok x with
+      | some b, some x => some (phraseSfxOpd b x, rest)
+      | _, _ => none
+    | "fps" :: hf :: h :: x :: rest =>
+      match textOfHex hf, textOfHex h, parseSfxTok x with
+      | some f, some b, some x => some (fieldPhraseSfxOpd f b x, rest)
+      | _, _, _ => none
+    | "r" :: lo :: hi :: h1 :: h2 :: rest =>
+      match textOfHex h1, textOfHex h2 with
+      | some w1, some w2 => some (rangeOpd (lo == "1") (hi == "1") w1 w2, rest)
+      | _, _ => none
+    | "fr" :: hf :: lo :: hi :: h1 :: h2 :: rest =>
+      match textOfHex hf, textOfHex h1, textOfHex h2 with
+      | some f, some w1, some w2 => some (fieldRangeOpd f (lo == "1") (hi == "1") w1 w2, rest)
+      | _, _, _ => none
+    | "s" :: k0 :: k1 :: h :: n :: rest =>
+      match k0.toNat?, k1.toNat?, textOfHex h, n.toNat? with
+      | some k0, some k1, some w, some n =>
+        match parseElemToks n rest with
+        | some (more, rest') => some (setOpd k0 k1 w more, rest')
+        | none => none
+      | _, _, _, _ => none
+    | "fs" :: hf :: k0 :: k1 :: h :: n :: rest =>
+      match textOfHex hf, k0.toNat?, k1.toNat?, textOfHex h, n.toNat? with
+      | some f, some k0, some k1, some w, some n =>
+        match parseElemToks n rest with
+        | some (more, rest') => some (fieldSetOpd f k0 k1 w more, rest')
+        | none => none
+      | _, _, _, _, _ => none
+    | "pe" :: h :: x :: rest =>
+      match textOfHex h, parseSfxTok x with
+      | some b, some x => some (phraseEscOpd b x, rest)
+      | _, _ => none
+    | "fpe" :: hf :: h :: x :: rest =>
+      match textOfHex hf, textOfHex h, parseSfxTok x with
+      | some f, some b, some x => some (fieldPhraseEscOpd f b x, rest)
+      | _, _, _ => none
+    | "a" :: rest => some (allOpd, rest)
+    | "x" :: hf :: rest => (textOfHex hf).map fun f => (existsOpd f, rest)
+    | "el" :: k :: h :: rest =>
+      match k.toNat?, textOfHex h with
+      | some k, some w => some (elasticOpd k w, rest)
+      | _, _ => none
+    | "fel" :: hf :: k :: h :: rest =>
+      match textOfHex hf, k.toNat?, textOfHex h with
+      | some f, some k, some w => some (fieldElasticOpd f k w, rest)
+      | _, _, _ => none
+    | "b" :: i :: f :: rest =>
+      match parseOpdToks fuel rest with
+      | some (o, rest1) => some (boostOpd o ⟨i.toList, if f == "-" then [] else f.toList⟩, rest1)
+      | none => none
+    | "n" :: k :: rest =>
+      match k.toNat?, parseOpdToks fuel rest with
+      | some k, some (o, rest1) => some (notOpd k o, rest1)
+      | _, _ => none
+    | "fg" :: hf :: lead :: occ :: k :: n :: rest =>
+      match textOfHex hf, lead.toNat?, parseOccTok occ, k.toNat?, n.toNat? with
+      | some f, some lead, some occ, some k, some n =>
+        match parseOpdToks fuel rest with
+        | some (o, rest1) =>
+          match parseItemToks fuel n rest1 with
+          | some (more, rest2) => some (fieldGroupOpd f lead occ o more k, rest2)
+          | none => none
+        | none => none
+      | _, _, _, _, _ => none
+    | "g" :: lead :: occ :: k :: n :: rest =>
+      match lead.toNat?, parseOccTok occ, k.toNat?, n.toNat? with
+      | some lead, some occ, some k, some n =>
+        match parseOpdToks fuel rest with
+        | some (o, rest1) =>
+          match parseItemToks fuel n rest1 with
+          | some (more, rest2) => some (groupOpd lead occ o more k, rest2)
+          | none => none
+        | none => none
+      | _, _, _, _ => none
+    | _ => none
+def parseItemToks : Nat → Nat → List String → Option (List PItem × List String)
+  | 0, _, _ => none
+  | _ + 1, 0, toks => some ([], toks)
+  | fuel + 1, n + 1, toks =>
+    match toks with
+    | op :: occ :: a :: b :: rest =>
+      match parseOpTok op, parseOccTok occ, a.toNat?, b.toNat?, parseOpdToks fuel rest with
+      | some op, some occ, some a, some b, some (o, rest1) =>
+        match parseItemToks fuel n rest1 with
+        | some (more, rest2) => some (⟨op, occ, o, a, b⟩ :: more, rest2)
+        | none => none
+      | _, _, _, _, _ => none
+    | _ => none
+end
+
+/-- `printt <lead>,<occ>,<k>,<n>,Opd,items…` → hex of the printed top-level operand list (the
+    printer of `C16_print_parse_nested`) -/
+def handlePrintTree (toks : String) : String :=
+  let ts := toks.splitOn ","
+  match ts with
+  | lead :: occ :: k :: n :: rest =>
+    match lead.toNat?, parseOccTok occ, k.toNat?, n.toNat? with
+    | some lead, some occ, some k, some n =>
+      match parseOpdToks (ts.length + 1) rest with
+      | some (o, rest1) =>
+        match parseItemToks (ts.length + 1) n rest1 with
+        | some (more, []) => hexStr (printList lead occ o more k [])
+        | _ => "bad-op"
+      | none => "bad-op"
+    | _, _, _, _ => "bad-op"
+  | _ => "bad-op"
 
 def handleParse (h : String) : String :=
   match textOfHex h with
